@@ -1705,7 +1705,9 @@ class WassersteinVectorizer(BaseEstimator, TransformerMixin):
 
                     lot_dimension = reference_size * vectors.shape[1]
                     block_size = max(1, memory_size // (lot_dimension * 8))
-                    u, s, v = scipy.sparse.linalg.svds(X, k=1)
+                    u, s, v = scipy.sparse.linalg.svds(
+                        X, k=1, random_state=check_random_state(self.random_state)
+                    )
                     reference_center = v @ vectors
                     if metric == cosine:
                         reference_center /= np.sqrt(np.sum(reference_center**2))
@@ -2403,7 +2405,9 @@ class SinkhornVectorizer(BaseEstimator, TransformerMixin):
 
                 lot_dimension = reference_size * vectors.shape[1]
                 block_size = max(1, memory_size // (lot_dimension * 8))
-                u, s, v = scipy.sparse.linalg.svds(X, k=1)
+                u, s, v = scipy.sparse.linalg.svds(
+                    X, k=1, random_state=check_random_state(self.random_state)
+                )
                 reference_center = v @ vectors
                 if metric == cosine:
                     reference_center /= np.sqrt(np.sum(reference_center**2))
